@@ -5,7 +5,7 @@
    are represented as the Go structs (emb_frame, emb_grouper: the representation). *)
 From QF Require Import Base.Prelude Gen.GenConsts Gen.GenTables Gen.GenFuncs Gen.GenFilterClause Gen.GenAggr.
 From QF Require Import Model.Frame Model.Filter Model.Ops Model.Aggregate Proofs.GenFilterClauseProofs Proofs.AggregateProofs.
-From QF Require Model.Sort Model.SortFrame.
+From QF Require Model.Sort Model.SortFrame Model.Grouper Proofs.SortKeyProofs.
 Local Open Scope Z_scope.
 
 (* ------------------------------------------------------------------ outcome helpers *)
@@ -850,7 +850,7 @@ Qed.
 (* the dynamic type of the model's aggregation function values, as the type switch of icolumn sees it: a string,
    a func([]int) int (a user table over int cells; a result cell that is not an int is a model fault), other *)
 Definition m_user_int (tbl : list (list cell * cell)) (zs : list Z) : outcome Z := cells_int (user_apply tbl) zs.
-Definition m_fn_cases (fn : aggfn) : ga_fncase :=
+Definition m_fn_cases (fn : aggfn) : ga_fncase Z :=
   match fn with
   | GName n => ga_FnString n
   | GUser TInt tbl => ga_FnFunc (m_user_int tbl)
@@ -1016,3 +1016,687 @@ Proof.
   destruct (nth_error d i) eqn:Ei; [|apply nth_error_None in Ei; lia].
   destruct (nth_error d j) eqn:Ej; [|apply nth_error_None in Ej; lia]. reflexivity.
 Qed.
+
+(* ------------------------------------------------------------------ fcolumn / bcolumn / scolumn / ecolumn:
+   Comparable (the constructor) and Compare *)
+
+Definition emb_fcomparable (d : list N) (cfg : Sort.cmpcfg) : ga_fcolumn_Comparable :=
+  ga_mk_fcolumn_Comparable d (cres_code (Sort.ltValue cfg)) (cres_code (Sort.nullLtValue cfg))
+    (cres_code (Sort.gtValue cfg)) (cres_code (Sort.nullGtValue cfg)) (cres_code (Sort.equalNullValue cfg)).
+Definition emb_bcomparable (d : list bool) (cfg : Sort.cmpcfg) : ga_bcolumn_Comparable :=
+  ga_mk_bcolumn_Comparable d (cres_code (Sort.ltValue cfg)) (cres_code (Sort.nullLtValue cfg))
+    (cres_code (Sort.gtValue cfg)) (cres_code (Sort.nullGtValue cfg)) (cres_code (Sort.equalNullValue cfg)).
+(* scolumn declares the fields in the order column, lt, gt, nullLt, nullGt, equalNull *)
+Definition emb_scomparable (c : ga_scolumn_Column) (cfg : Sort.cmpcfg) : ga_scolumn_Comparable :=
+  ga_mk_scolumn_Comparable c (cres_code (Sort.ltValue cfg)) (cres_code (Sort.gtValue cfg))
+    (cres_code (Sort.nullLtValue cfg)) (cres_code (Sort.nullGtValue cfg)) (cres_code (Sort.equalNullValue cfg)).
+Definition emb_ecomparable (c : ga_ecolumn_Column) (cfg : Sort.cmpcfg) : ga_ecolumn_Comparable :=
+  ga_mk_ecolumn_Comparable c (cres_code (Sort.ltValue cfg)) (cres_code (Sort.nullLtValue cfg))
+    (cres_code (Sort.gtValue cfg)) (cres_code (Sort.nullGtValue cfg)) (cres_code (Sort.equalNullValue cfg)).
+(* the Go struct of an enum column: the ranks as uint8 values *)
+Definition emb_ecol (d : list N) (values : list bytes) (strict : bool) : ga_ecolumn_Column :=
+  ga_mk_ecolumn_Column (map Z.of_N d) values strict.
+
+Lemma ga_fcolumn_Comparable_eq {K : Type} (wrap : ga_fcolumn_Comparable -> K) (d : list N) (reverse equalNull nullLast : bool) :
+  ga_fcolumn_Column_Comparable wrap (ga_mk_fcolumn_Column d) reverse equalNull nullLast
+  = Ok (wrap (emb_fcomparable d (Sort.mk_cmpcfg reverse equalNull nullLast))).
+Proof. destruct reverse, equalNull, nullLast; reflexivity. Qed.
+
+Lemma ga_bcolumn_Comparable_eq {K : Type} (wrap : ga_bcolumn_Comparable -> K) (d : list bool) (reverse equalNull nullLast : bool) :
+  ga_bcolumn_Column_Comparable wrap (ga_mk_bcolumn_Column d) reverse equalNull nullLast
+  = Ok (wrap (emb_bcomparable d (Sort.mk_cmpcfg reverse equalNull nullLast))).
+Proof. destruct reverse, equalNull, nullLast; reflexivity. Qed.
+
+Lemma ga_scolumn_Comparable_eq {K : Type} (wrap : ga_scolumn_Comparable -> K) (c : ga_scolumn_Column) (reverse equalNull nullLast : bool) :
+  ga_scolumn_Column_Comparable wrap c reverse equalNull nullLast
+  = Ok (wrap (emb_scomparable c (Sort.mk_cmpcfg reverse equalNull nullLast))).
+Proof. destruct reverse, equalNull, nullLast; reflexivity. Qed.
+
+Lemma ga_ecolumn_Comparable_eq {K : Type} (wrap : ga_ecolumn_Comparable -> K) (c : ga_ecolumn_Column) (reverse equalNull nullLast : bool) :
+  ga_ecolumn_Column_Comparable wrap c reverse equalNull nullLast
+  = Ok (wrap (emb_ecomparable c (Sort.mk_cmpcfg reverse equalNull nullLast))).
+Proof. destruct reverse, equalNull, nullLast; reflexivity. Qed.
+
+(* fcolumn Compare, for ANY reading flt / fnan of < and math.IsNaN on bit patterns: x < y, x > y first, the NaN
+   tests afterwards *)
+Lemma ga_fcolumn_Compare_eq (flt : N -> N -> bool) (fnan : N -> bool) (d : list N) (cfg : Sort.cmpcfg) (i j : nat) :
+  ga_fcolumn_Comparable_Compare flt fnan (emb_fcomparable d cfg) (Z.of_nat i) (Z.of_nat j)
+  = (do _ <- idx d i; do _ <- idx d j;
+     Ok (cres_code (Sort.compare_rows_float cfg (fun a => fnan (nth a d 0%N))
+                      (fun a b => flt (nth a d 0%N) (nth b d 0%N)) i j))).
+Proof.
+  unfold ga_fcolumn_Comparable_Compare. cbn [emb_fcomparable ga_fcolumn_Comparable_data
+    ga_fcolumn_Comparable_ltValue ga_fcolumn_Comparable_gtValue ga_fcolumn_Comparable_nullLtValue
+    ga_fcolumn_Comparable_nullGtValue ga_fcolumn_Comparable_equalNullValue]. rewrite !gap_index.
+  unfold idx, Sort.compare_rows_float.
+  destruct (nth_error d i) as [x|] eqn:Ei; cbn [of_option obind]; [|reflexivity].
+  destruct (nth_error d j) as [y|] eqn:Ej; cbn [of_option obind]; [|reflexivity].
+  rewrite (nth_error_nth d i 0%N Ei), (nth_error_nth d j 0%N Ej).
+  destruct (flt x y); [reflexivity|]. destruct (flt y x); [reflexivity|].
+  destruct (fnan x), (fnan y); reflexivity.
+Qed.
+
+Lemma ga_fcolumn_Compare_sortframe (d : list N) (reverse nullLast : bool) (i j : nat) :
+  (i < length d)%nat -> (j < length d)%nat ->
+  ga_fcolumn_Comparable_Compare f_lt f_isnan (emb_fcomparable d (Sort.mk_cmpcfg reverse false nullLast))
+    (Z.of_nat i) (Z.of_nat j)
+  = Ok (cres_code (SortFrame.col_comparable (FCol d) reverse nullLast i j)).
+Proof.
+  intros Hi Hj. rewrite ga_fcolumn_Compare_eq. unfold idx.
+  destruct (nth_error d i) eqn:Ei; [|apply nth_error_None in Ei; lia].
+  destruct (nth_error d j) eqn:Ej; [|apply nth_error_None in Ej; lia]. reflexivity.
+Qed.
+
+(* bcolumn Compare *)
+Lemma ga_bcolumn_Compare_eq (d : list bool) (cfg : Sort.cmpcfg) (i j : nat) :
+  ga_bcolumn_Comparable_Compare (emb_bcomparable d cfg) (Z.of_nat i) (Z.of_nat j)
+  = (do _ <- idx d i; do _ <- idx d j;
+     Ok (cres_code (Sort.compare_rows_bool cfg (fun a => nth a d false) i j))).
+Proof.
+  unfold ga_bcolumn_Comparable_Compare. cbn [emb_bcomparable ga_bcolumn_Comparable_data
+    ga_bcolumn_Comparable_ltValue ga_bcolumn_Comparable_gtValue]. rewrite !gap_index.
+  unfold idx, Sort.compare_rows_bool.
+  destruct (nth_error d i) as [x|] eqn:Ei; cbn [of_option obind]; [|reflexivity].
+  destruct (nth_error d j) as [y|] eqn:Ej; cbn [of_option obind]; [|reflexivity].
+  rewrite (nth_error_nth d i false Ei), (nth_error_nth d j false Ej).
+  destruct (Bool.eqb x y); [reflexivity|]. destruct x; reflexivity.
+Qed.
+
+Lemma ga_bcolumn_Compare_sortframe (d : list bool) (reverse nullLast : bool) (i j : nat) :
+  (i < length d)%nat -> (j < length d)%nat ->
+  ga_bcolumn_Comparable_Compare (emb_bcomparable d (Sort.mk_cmpcfg reverse false nullLast)) (Z.of_nat i) (Z.of_nat j)
+  = Ok (cres_code (SortFrame.col_comparable (BCol d) reverse nullLast i j)).
+Proof.
+  intros Hi Hj. rewrite ga_bcolumn_Compare_eq. unfold idx.
+  destruct (nth_error d i) eqn:Ei; [|apply nth_error_None in Ei; lia].
+  destruct (nth_error d j) eqn:Ej; [|apply nth_error_None in Ej; lia]. reflexivity.
+Qed.
+
+(* ecolumn Compare: the null tests (rank 255) first, then the ranks as numbers *)
+Lemma gap_enum_isnull (r : N) : gf_ecolumn_enumVal_isNull (Z.of_N r) = enum_is_null r.
+Proof. unfold gf_ecolumn_enumVal_isNull, enum_is_null, GenConsts.c_nullValue. destruct (N.eqb_spec r 255); lia. Qed.
+
+Lemma gap_N_ltb (x y : N) : (Z.of_N x <? Z.of_N y) = (x <? y)%N.
+Proof. destruct (N.ltb_spec x y); lia. Qed.
+
+Lemma idx_map {A B} (f : A -> B) (l : list A) (n : nat) : idx (map f l) n = omap1 f (idx l n).
+Proof. unfold idx. rewrite nth_error_map. destruct (nth_error l n); reflexivity. Qed.
+
+Lemma ga_ecolumn_Compare_eq (d : list N) (values : list bytes) (strict : bool) (cfg : Sort.cmpcfg) (i j : nat) :
+  ga_ecolumn_Comparable_Compare (emb_ecomparable (emb_ecol d values strict) cfg) (Z.of_nat i) (Z.of_nat j)
+  = (do _ <- idx d i; do _ <- idx d j;
+     Ok (cres_code (Sort.compare_rows cfg (fun a => enum_is_null (nth a d GenConsts.c_nullValue))
+                      (fun a b => (nth a d GenConsts.c_nullValue <? nth b d GenConsts.c_nullValue)%N) i j))).
+Proof.
+  unfold ga_ecolumn_Comparable_Compare. cbn [emb_ecomparable emb_ecol ga_ecolumn_Comparable_column ga_ecolumn_Column_data
+    ga_ecolumn_Comparable_ltValue ga_ecolumn_Comparable_gtValue ga_ecolumn_Comparable_nullLtValue
+    ga_ecolumn_Comparable_nullGtValue ga_ecolumn_Comparable_equalNullValue]. rewrite !gap_index, !idx_map.
+  unfold idx, Sort.compare_rows.
+  destruct (nth_error d i) as [x|] eqn:Ei; cbn [of_option omap1 obind]; [|reflexivity].
+  destruct (nth_error d j) as [y|] eqn:Ej; cbn [of_option omap1 obind]; [|reflexivity].
+  rewrite (nth_error_nth d i GenConsts.c_nullValue Ei), (nth_error_nth d j GenConsts.c_nullValue Ej).
+  rewrite !gap_enum_isnull, !gap_N_ltb.
+  destruct (enum_is_null x), (enum_is_null y); cbn [orb negb]; try reflexivity.
+  destruct (x <? y)%N; [reflexivity|]. destruct (y <? x)%N; reflexivity.
+Qed.
+
+Lemma ga_ecolumn_Compare_sortframe (d : list N) (values : list bytes) (strict : bool) (reverse nullLast : bool) (i j : nat) :
+  (i < length d)%nat -> (j < length d)%nat ->
+  ga_ecolumn_Comparable_Compare (emb_ecomparable (emb_ecol d values strict) (Sort.mk_cmpcfg reverse false nullLast))
+    (Z.of_nat i) (Z.of_nat j)
+  = Ok (cres_code (SortFrame.col_comparable (ECol d values strict) reverse nullLast i j)).
+Proof.
+  intros Hi Hj. rewrite ga_ecolumn_Compare_eq. unfold idx.
+  destruct (nth_error d i) eqn:Ei; [|apply nth_error_None in Ei; lia].
+  destruct (nth_error d j) eqn:Ej; [|apply nth_error_None in Ej; lia]. reflexivity.
+Qed.
+
+(* scolumn.  THE REPRESENTATION of a string column: the Go struct c (pointers into a byte slice) represents the
+   model's list of optional strings d when bytesAt reads d: the bytes of string i, (nil, true) for a null, a panic
+   beyond the column *)
+Definition scol_cell (x : option (option bytes)) : outcome (bytes * bool) :=
+  match x with Some (Some s) => Ok (s, false) | Some None => Ok ([], true) | None => Panic end.
+Definition rep_scol (c : ga_scolumn_Column) (d : list (option bytes)) : Prop :=
+  forall i : nat, ga_scolumn_Column_bytesAt c (Z.of_nat i) = scol_cell (nth_error d i).
+
+Lemma gap_bytes_compare_lt x y : (ga_bytes_compare x y =? -1) = match bytes_cmp x y with Lt => true | _ => false end.
+Proof. unfold ga_bytes_compare. destruct (bytes_cmp x y); reflexivity. Qed.
+
+Lemma gap_bytes_compare_gt x y : (ga_bytes_compare x y =? 1) = match bytes_cmp y x with Lt => true | _ => false end.
+Proof.
+  unfold ga_bytes_compare. rewrite (SortKeyProofs.bytes_cmp_antisym x y). destruct (bytes_cmp x y); reflexivity.
+Qed.
+
+Lemma ga_scolumn_Compare_eq (c : ga_scolumn_Column) (d : list (option bytes)) (cfg : Sort.cmpcfg) (i j : nat) :
+  rep_scol c d ->
+  ga_scolumn_Comparable_Compare (emb_scomparable c cfg) (Z.of_nat i) (Z.of_nat j)
+  = (do _ <- idx d i; do _ <- idx d j;
+     Ok (cres_code (Sort.compare_rows cfg (fun a => SortFrame.str_is_null (nth a d None))
+                      (fun a b => SortFrame.str_vlt (nth a d None) (nth b d None)) i j))).
+Proof.
+  intro Hrep. unfold ga_scolumn_Comparable_Compare. cbn [emb_scomparable ga_scolumn_Comparable_column
+    ga_scolumn_Comparable_ltValue ga_scolumn_Comparable_gtValue ga_scolumn_Comparable_nullLtValue
+    ga_scolumn_Comparable_nullGtValue ga_scolumn_Comparable_equalNullValue]. rewrite !Hrep.
+  unfold idx, Sort.compare_rows.
+  destruct (nth_error d i) as [x|] eqn:Ei; cbn [scol_cell of_option obind]; [|reflexivity].
+  rewrite (nth_error_nth d i None Ei).
+  destruct (nth_error d j) as [y|] eqn:Ej.
+  2:{ destruct x; reflexivity. }
+  rewrite (nth_error_nth d j None Ej).
+  destruct x as [a|], y as [b|]; cbn [scol_cell obind of_option SortFrame.str_is_null SortFrame.str_vlt orb negb];
+    try reflexivity.
+  rewrite gap_bytes_compare_lt, gap_bytes_compare_gt.
+  destruct (bytes_cmp a b); [|reflexivity|]; destruct (bytes_cmp b a); reflexivity.
+Qed.
+
+Lemma ga_scolumn_Compare_sortframe (c : ga_scolumn_Column) (d : list (option bytes)) (reverse nullLast : bool) (i j : nat) :
+  rep_scol c d -> (i < length d)%nat -> (j < length d)%nat ->
+  ga_scolumn_Comparable_Compare (emb_scomparable c (Sort.mk_cmpcfg reverse false nullLast)) (Z.of_nat i) (Z.of_nat j)
+  = Ok (cres_code (SortFrame.col_comparable (SCol d) reverse nullLast i j)).
+Proof.
+  intros Hrep Hi Hj. rewrite (ga_scolumn_Compare_eq c d _ i j Hrep). unfold idx.
+  destruct (nth_error d i) eqn:Ei; [|apply nth_error_None in Ei; lia].
+  destruct (nth_error d j) eqn:Ej; [|apply nth_error_None in Ej; lia]. reflexivity.
+Qed.
+
+(* a decidable sufficient condition for rep_scol: as many pointers as strings, and bytesAt right at every row *)
+Definition scol_cell_eqb (a b : outcome (bytes * bool)) : bool :=
+  match a, b with
+  | Ok (x, p), Ok (y, q) => bytes_eqb x y && Bool.eqb p q
+  | Panic, Panic => true
+  | _, _ => false
+  end.
+Definition rep_scol_check (c : ga_scolumn_Column) (d : list (option bytes)) : bool :=
+  Nat.eqb (length (ga_scolumn_Column_pointers c)) (length d)
+  && forallb (fun i => scol_cell_eqb (ga_scolumn_Column_bytesAt c (Z.of_nat i)) (scol_cell (nth_error d i)))
+       (seq 0 (length d)).
+
+Lemma scol_cell_eqb_eq a b : scol_cell_eqb a b = true -> a = b.
+Proof.
+  destruct a as [[x p]| |], b as [[y q]| |]; cbn [scol_cell_eqb]; intro H; try discriminate; [|reflexivity].
+  apply andb_prop in H. destruct H as [H1 H2]. apply bytes_eqb_spec in H1. apply Bool.eqb_prop in H2. now subst.
+Qed.
+
+Lemma rep_scol_check_sound c d : rep_scol_check c d = true -> rep_scol c d.
+Proof.
+  unfold rep_scol_check. intros H i. apply andb_prop in H. destruct H as [Hlen Hall].
+  apply Nat.eqb_eq in Hlen. destruct (Nat.lt_ge_cases i (length d)) as [Hi|Hi].
+  - apply scol_cell_eqb_eq. rewrite forallb_forall in Hall. apply Hall. apply in_seq. lia.
+  - assert (E : nth_error d i = None) by (apply nth_error_None; exact Hi). rewrite E. cbn [scol_cell].
+    unfold ga_scolumn_Column_bytesAt. rewrite gap_index. unfold idx.
+    assert (E2 : nth_error (ga_scolumn_Column_pointers c) i = None) by (apply nth_error_None; lia).
+    now rewrite E2.
+Qed.
+
+(* ------------------------------------------------------------------ Hash: the bytes handed to memhash *)
+
+Lemma gap_le_bytes n v : ga_le_bytes n v = Grouper.le_bytes n v.
+Proof. revert v. induction n as [|n IH]; intro v; cbn [ga_le_bytes Grouper.le_bytes]; [reflexivity|now rewrite IH]. Qed.
+
+(* equalNullValue of a constructed Comparable is NotEqual exactly when equalNull is false *)
+Lemma gap_equalNull_code reverse equalNull nullLast :
+  (cres_code (Sort.equalNullValue (Sort.mk_cmpcfg reverse equalNull nullLast)) =? ga_column_NotEqual) = negb equalNull.
+Proof. destruct reverse, equalNull, nullLast; reflexivity. Qed.
+
+(* what Hash answers for a key cell: memhash of the model's hash input, or the next random number *)
+Definition hash_result {R : Type} (mh : bytes -> N -> N) (rnd : R -> N * R) (nulleq : bool) (c : Grouper.cell)
+  (seed : N) (r : R) : N * R :=
+  match Grouper.hash_input nulleq c with Some b => (mh b seed, r) | None => rnd r end.
+
+Lemma ga_icolumn_Hash_eq (mh : bytes -> N -> N) (d : list Z) (cfg : Sort.cmpcfg) (nulleq : bool) (i : nat) (seed : N) :
+  ga_icolumn_Comparable_Hash mh (emb_comparable d cfg) (Z.of_nat i) seed
+  = (do z <- idx d i; Ok (match Grouper.hash_input nulleq (Grouper.CInt z) with Some b => mh b seed | None => 0%N end)).
+Proof.
+  unfold ga_icolumn_Comparable_Hash. cbn [emb_comparable ga_icolumn_Comparable_data]. rewrite gap_index.
+  destruct (idx d i) as [z| |]; cbn [obind Grouper.hash_input]; [|reflexivity|reflexivity].
+  unfold ga_le64, ga_u64. rewrite gap_le_bytes. reflexivity.
+Qed.
+
+Lemma ga_bcolumn_Hash_eq (mh : bytes -> N -> N) (d : list bool) (cfg : Sort.cmpcfg) (nulleq : bool) (i : nat) (seed : N) :
+  ga_bcolumn_Comparable_Hash mh (emb_bcomparable d cfg) (Z.of_nat i) seed
+  = (do b <- idx d i; Ok (match Grouper.hash_input nulleq (Grouper.CBool b) with Some x => mh x seed | None => 0%N end)).
+Proof.
+  unfold ga_bcolumn_Comparable_Hash. cbn [emb_bcomparable ga_bcolumn_Comparable_data]. rewrite gap_index.
+  destruct (idx d i) as [[|]| |]; reflexivity.
+Qed.
+
+Lemma ga_ecolumn_Hash_eq (mh : bytes -> N -> N) (d : list N) values strict (cfg : Sort.cmpcfg) (nulleq : bool) (i : nat) (seed : N) :
+  ga_ecolumn_Comparable_Hash mh (emb_ecomparable (emb_ecol d values strict) cfg) (Z.of_nat i) seed
+  = (do r <- idx d i; Ok (match Grouper.hash_input nulleq (Grouper.CEnum r) with Some x => mh x seed | None => 0%N end)).
+Proof.
+  unfold ga_ecolumn_Comparable_Hash. cbn [emb_ecomparable emb_ecol ga_ecolumn_Comparable_column ga_ecolumn_Column_data].
+  rewrite gap_index, idx_map.
+  destruct (idx d i) as [r| |]; cbn [omap1 obind Grouper.hash_input]; [|reflexivity|reflexivity].
+  now rewrite N2Z.id.
+Qed.
+
+(* fcolumn: math.IsNaN, == 0, math.NaN() and the literal 0 read as Model/Grouper.v reads them on bit patterns *)
+Definition g_iszero (b : N) : bool := (Grouper.f_key b =? 0)%Z.
+
+Lemma ga_fcolumn_Hash_eq {R : Type} (mh : bytes -> N -> N) (rnd : R -> N * R) (d : list N)
+  (reverse equalNull nullLast : bool) (i : nat) (seed : N) (r : R) :
+  ga_fcolumn_Comparable_Hash 0%N Grouper.c_uvnan Grouper.f_isnan g_iszero mh rnd
+    (emb_fcomparable d (Sort.mk_cmpcfg reverse equalNull nullLast)) (Z.of_nat i) seed r
+  = (do b <- idx d i; Ok (hash_result mh rnd equalNull (Grouper.CFloat b) seed r)).
+Proof.
+  unfold ga_fcolumn_Comparable_Hash. cbn [emb_fcomparable ga_fcolumn_Comparable_data ga_fcolumn_Comparable_equalNullValue].
+  rewrite gap_index, gap_equalNull_code.
+  destruct (idx d i) as [b| |]; cbn [obind]; [|reflexivity|reflexivity].
+  unfold hash_result. cbn [Grouper.hash_input]. unfold ga_le64. rewrite !gap_le_bytes.
+  destruct (Grouper.f_isnan b).
+  - destruct equalNull; cbn [negb]; [reflexivity|]. destruct (rnd r); reflexivity.
+  - unfold g_iszero. destruct (Grouper.f_key b =? 0)%Z; cbn [obind]; now rewrite ?gap_le_bytes.
+Qed.
+
+Lemma ga_scolumn_Hash_eq {R : Type} (mh : bytes -> N -> N) (rnd : R -> N * R) (c : ga_scolumn_Column)
+  (d : list (option bytes)) (reverse equalNull nullLast : bool) (i : nat) (seed : N) (r : R) :
+  rep_scol c d ->
+  ga_scolumn_Comparable_Hash mh rnd (emb_scomparable c (Sort.mk_cmpcfg reverse equalNull nullLast)) (Z.of_nat i) seed r
+  = (do s <- idx d i; Ok (hash_result mh rnd equalNull (Grouper.CStr s) seed r)).
+Proof.
+  intro Hrep. unfold ga_scolumn_Comparable_Hash.
+  cbn [emb_scomparable ga_scolumn_Comparable_column ga_scolumn_Comparable_equalNullValue].
+  rewrite Hrep, gap_equalNull_code. unfold idx.
+  destruct (nth_error d i) as [[s|]|]; cbn [scol_cell of_option obind]; [reflexivity| |reflexivity].
+  unfold hash_result. cbn [Grouper.hash_input]. destruct equalNull; cbn [negb]; [reflexivity|].
+  destruct (rnd r); reflexivity.
+Qed.
+
+(* ------------------------------------------------------------------ Column.Aggregate of the template, generically *)
+
+Lemma omap_ext_in {A B} (f g : A -> outcome B) (l : list A) :
+  (forall a, In a l -> f a = g a) -> omap f l = omap g l.
+Proof.
+  induction l as [|a l IH]; intro H; cbn [omap]; [reflexivity|].
+  rewrite (H a (or_introl eq_refl)), IH; [reflexivity|]. intros x Hx. apply H. now right.
+Qed.
+
+Definition gv {T : Type} (d : list T) (fz : list T -> outcome T) (ix : list Z) : outcome T :=
+  do vals <- omap (ga_index d) ix; fz vals.
+
+Section AggCore.
+  Context {T : Type} (inj : T -> cell) (proj : cell -> outcome T) (mkcol : list T -> coldata) (ct : ctype).
+  Hypothesis Hproj_nf : forall c, proj c <> Fail.
+  Hypothesis Hvals : forall d g, agg_vals (mkcol d) g = omap1 (map inj) (omap (idx d) g).
+  Hypothesis Hcol : forall cells, col_of_cells ct cells = (do d <- omap proj cells; Ok (mkcol d)).
+
+  Definition cells_T (fnc : list cell -> outcome cell) (zs : list T) : outcome T :=
+    do c <- fnc (map inj zs); proj c.
+  Definition group_cell (d : list T) (fnc : list cell -> outcome cell) (g : list nat) : outcome cell :=
+    do vals <- agg_vals (mkcol d) g; fnc vals.
+
+  Lemma group_cell_nofail d fnc g : (forall vals, fnc vals <> Fail) -> group_cell d fnc g <> Fail.
+  Proof.
+    intro H. unfold group_cell. apply obind_nofail; [|exact H]. rewrite Hvals.
+    pose proof (omap_not_fail (idx d) g (fun x _ => idx_nofail d x)) as Hn.
+    destruct (omap (idx d) g); cbn [omap1]; congruence.
+  Qed.
+
+  (* fz has to agree with fnc only on the values of the groups *)
+  Lemma agg_core (d : list T) (fz : list T -> outcome T) (fnc : list cell -> outcome cell) (gs : list (list nat)) :
+    (forall g vals, In g gs -> omap (idx d) g = Ok vals -> fz vals = cells_T fnc vals) ->
+    (forall vals, fnc vals <> Fail) ->
+    (do data <- omap1 (app []) (omap (gv d fz) (map ints gs)); Ok (Some (mkcol data), @None unit))
+    = agg_pair (do cells <- omap (group_cell d fnc) gs; col_of_cells ct cells).
+  Proof.
+    intros HR Hnf. rewrite omap_map.
+    rewrite (omap_ext_in _ (fun g => do c <- group_cell d fnc g; proj c) gs).
+    2:{ intros g Hg. unfold gv, group_cell. rewrite ga_index_ints, Hvals.
+        destruct (omap (idx d) g) as [vals| |] eqn:E; cbn [omap1 obind]; [|reflexivity|reflexivity].
+        apply (HR g vals Hg E). }
+    rewrite <- (omap_fuse (group_cell d fnc) proj gs (fun g => group_cell_nofail d fnc g Hnf) Hproj_nf).
+    pose proof (omap_not_fail (group_cell d fnc) gs (fun g _ => group_cell_nofail d fnc g Hnf)) as Hn.
+    destruct (omap (group_cell d fnc) gs) as [cells| |]; cbn [obind omap1 agg_pair]; [|congruence|reflexivity].
+    rewrite Hcol. pose proof (omap_not_fail proj cells (fun c _ => Hproj_nf c)) as Hc.
+    destruct (omap proj cells); cbn [obind omap1 agg_pair app]; [reflexivity|congruence|reflexivity].
+  Qed.
+End AggCore.
+
+Lemma cell_float_nofail c : cell_float c <> Fail.
+Proof. destruct c; discriminate. Qed.
+Lemma cell_bool_nofail c : cell_bool c <> Fail.
+Proof. destruct c; discriminate. Qed.
+
+Lemma agg_vals_FCol d g : agg_vals (FCol d) g = omap1 (map CFloat) (omap (idx d) g).
+Proof.
+  unfold agg_vals. induction g as [|p g IH]; cbn [omap omap1 map]; [reflexivity|].
+  unfold agg_cell_at at 1. cbn [cell_at]. destruct (idx d p); cbn [obind]; [|reflexivity|reflexivity].
+  rewrite IH. destruct (omap (idx d) g); reflexivity.
+Qed.
+Lemma agg_vals_BCol d g : agg_vals (BCol d) g = omap1 (map CBool) (omap (idx d) g).
+Proof.
+  unfold agg_vals. induction g as [|p g IH]; cbn [omap omap1 map]; [reflexivity|].
+  unfold agg_cell_at at 1. cbn [cell_at]. destruct (idx d p); cbn [obind]; [|reflexivity|reflexivity].
+  rewrite IH. destruct (omap (idx d) g); reflexivity.
+Qed.
+
+Lemma omap_cell_float_CFloat zs : omap cell_float (map CFloat zs) = Ok zs.
+Proof. induction zs as [|z zs IH]; cbn [map omap cell_float obind]; [reflexivity|]. now rewrite IH. Qed.
+Lemma omap_cell_bool_CBool zs : omap cell_bool (map CBool zs) = Ok zs.
+Proof. induction zs as [|z zs IH]; cbn [map omap cell_bool obind]; [reflexivity|]. now rewrite IH. Qed.
+
+(* ---- internal/fcolumn: subsetWithBuf and the loop of Aggregate (the template instantiated at N) *)
+Definition buf_after_fcolumn (buf : list N * Z) (index : list Z) : list N * Z :=
+  if snd buf <? Z.of_nat (length index) then ([], Z.of_nat (length index)) else buf.
+
+Lemma ga_fcolumn_subsetWithBuf_loop_eq (c : ga_fcolumn_Column) (l : list Z) : forall data,
+  ga_fcolumn_Column_subsetWithBuf_loop1 l c data
+  = omap1 (app data) (omap (ga_index (ga_fcolumn_Column_data c)) l).
+Proof.
+  induction l as [|i l IH]; intro data; cbn [ga_fcolumn_Column_subsetWithBuf_loop1 omap omap1].
+  - now rewrite app_nil_r.
+  - destruct (ga_index (ga_fcolumn_Column_data c) i) as [v| |]; cbn [obind]; [|reflexivity|reflexivity].
+    rewrite IH. destruct (omap (ga_index (ga_fcolumn_Column_data c)) l); cbn [omap1 obind]; [|reflexivity|reflexivity].
+    now rewrite <- app_assoc.
+Qed.
+
+Lemma ga_fcolumn_subsetWithBuf_eq (c : ga_fcolumn_Column) (index : list Z) (buf : list N * Z) :
+  ga_fcolumn_Column_subsetWithBuf c index buf
+  = omap1 (fun d => (ga_mk_fcolumn_Column d, buf_after_fcolumn buf index)) (omap (ga_index (ga_fcolumn_Column_data c)) index).
+Proof.
+  unfold ga_fcolumn_Column_subsetWithBuf, buf_after_fcolumn.
+  destruct (snd buf <? Z.of_nat (length index)).
+  - rewrite gap_make0 by lia. cbn [obind]. rewrite ga_fcolumn_subsetWithBuf_loop_eq.
+    destruct (omap (ga_index (ga_fcolumn_Column_data c)) index); reflexivity.
+  - cbn [obind]. rewrite ga_fcolumn_subsetWithBuf_loop_eq.
+    destruct (omap (ga_index (ga_fcolumn_Column_data c)) index); reflexivity.
+Qed.
+
+Lemma ga_fcolumn_Aggregate_loop1_eq (d : list N) (fz : list N -> outcome N) (l : list (list Z)) : forall data buf,
+  omap1 fst (ga_fcolumn_Column_Aggregate_loop1 l (ga_mk_fcolumn_Column d) fz data buf)
+  = omap1 (app data) (omap (gv d fz) l).
+Proof.
+  induction l as [|ix l IH]; intros data buf; cbn [ga_fcolumn_Column_Aggregate_loop1 omap omap1 fst].
+  - now rewrite app_nil_r.
+  - rewrite ga_fcolumn_subsetWithBuf_eq. cbn [ga_fcolumn_Column_data]. unfold gv at 1.
+    destruct (omap (ga_index d) ix) as [vals| |]; cbn [omap1 obind ga_fcolumn_Column_data]; [|reflexivity|reflexivity].
+    destruct (fz vals) as [v| |]; cbn [obind]; [|reflexivity|reflexivity].
+    rewrite IH. destruct (omap (gv d fz) l); cbn [omap1 obind]; [|reflexivity|reflexivity].
+    now rewrite <- app_assoc.
+Qed.
+
+Lemma ga_fcolumn_Aggregate_loop2_eq (d : list N) (fz : list N -> outcome N) (l : list (list Z)) : forall data buf,
+  omap1 fst (ga_fcolumn_Column_Aggregate_loop2 l (ga_mk_fcolumn_Column d) fz data buf)
+  = omap1 (app data) (omap (gv d fz) l).
+Proof.
+  induction l as [|ix l IH]; intros data buf; cbn [ga_fcolumn_Column_Aggregate_loop2 omap omap1 fst].
+  - now rewrite app_nil_r.
+  - rewrite ga_fcolumn_subsetWithBuf_eq. cbn [ga_fcolumn_Column_data]. unfold gv at 1.
+    destruct (omap (ga_index d) ix) as [vals| |]; cbn [omap1 obind ga_fcolumn_Column_data]; [|reflexivity|reflexivity].
+    destruct (fz vals) as [v| |]; cbn [obind]; [|reflexivity|reflexivity].
+    rewrite IH. destruct (omap (gv d fz) l); cbn [omap1 obind]; [|reflexivity|reflexivity].
+    now rewrite <- app_assoc.
+Qed.
+
+(* ---- internal/bcolumn: subsetWithBuf and the loop of Aggregate (the template instantiated at bool) *)
+Definition buf_after_bcolumn (buf : list bool * Z) (index : list Z) : list bool * Z :=
+  if snd buf <? Z.of_nat (length index) then ([], Z.of_nat (length index)) else buf.
+
+Lemma ga_bcolumn_subsetWithBuf_loop_eq (c : ga_bcolumn_Column) (l : list Z) : forall data,
+  ga_bcolumn_Column_subsetWithBuf_loop1 l c data
+  = omap1 (app data) (omap (ga_index (ga_bcolumn_Column_data c)) l).
+Proof.
+  induction l as [|i l IH]; intro data; cbn [ga_bcolumn_Column_subsetWithBuf_loop1 omap omap1].
+  - now rewrite app_nil_r.
+  - destruct (ga_index (ga_bcolumn_Column_data c) i) as [v| |]; cbn [obind]; [|reflexivity|reflexivity].
+    rewrite IH. destruct (omap (ga_index (ga_bcolumn_Column_data c)) l); cbn [omap1 obind]; [|reflexivity|reflexivity].
+    now rewrite <- app_assoc.
+Qed.
+
+Lemma ga_bcolumn_subsetWithBuf_eq (c : ga_bcolumn_Column) (index : list Z) (buf : list bool * Z) :
+  ga_bcolumn_Column_subsetWithBuf c index buf
+  = omap1 (fun d => (ga_mk_bcolumn_Column d, buf_after_bcolumn buf index)) (omap (ga_index (ga_bcolumn_Column_data c)) index).
+Proof.
+  unfold ga_bcolumn_Column_subsetWithBuf, buf_after_bcolumn.
+  destruct (snd buf <? Z.of_nat (length index)).
+  - rewrite gap_make0 by lia. cbn [obind]. rewrite ga_bcolumn_subsetWithBuf_loop_eq.
+    destruct (omap (ga_index (ga_bcolumn_Column_data c)) index); reflexivity.
+  - cbn [obind]. rewrite ga_bcolumn_subsetWithBuf_loop_eq.
+    destruct (omap (ga_index (ga_bcolumn_Column_data c)) index); reflexivity.
+Qed.
+
+Lemma ga_bcolumn_Aggregate_loop1_eq (d : list bool) (fz : list bool -> outcome bool) (l : list (list Z)) : forall data buf,
+  omap1 fst (ga_bcolumn_Column_Aggregate_loop1 l (ga_mk_bcolumn_Column d) fz data buf)
+  = omap1 (app data) (omap (gv d fz) l).
+Proof.
+  induction l as [|ix l IH]; intros data buf; cbn [ga_bcolumn_Column_Aggregate_loop1 omap omap1 fst].
+  - now rewrite app_nil_r.
+  - rewrite ga_bcolumn_subsetWithBuf_eq. cbn [ga_bcolumn_Column_data]. unfold gv at 1.
+    destruct (omap (ga_index d) ix) as [vals| |]; cbn [omap1 obind ga_bcolumn_Column_data]; [|reflexivity|reflexivity].
+    destruct (fz vals) as [v| |]; cbn [obind]; [|reflexivity|reflexivity].
+    rewrite IH. destruct (omap (gv d fz) l); cbn [omap1 obind]; [|reflexivity|reflexivity].
+    now rewrite <- app_assoc.
+Qed.
+
+Lemma ga_bcolumn_Aggregate_loop2_eq (d : list bool) (fz : list bool -> outcome bool) (l : list (list Z)) : forall data buf,
+  omap1 fst (ga_bcolumn_Column_Aggregate_loop2 l (ga_mk_bcolumn_Column d) fz data buf)
+  = omap1 (app data) (omap (gv d fz) l).
+Proof.
+  induction l as [|ix l IH]; intros data buf; cbn [ga_bcolumn_Column_Aggregate_loop2 omap omap1 fst].
+  - now rewrite app_nil_r.
+  - rewrite ga_bcolumn_subsetWithBuf_eq. cbn [ga_bcolumn_Column_data]. unfold gv at 1.
+    destruct (omap (ga_index d) ix) as [vals| |]; cbn [omap1 obind ga_bcolumn_Column_data]; [|reflexivity|reflexivity].
+    destruct (fz vals) as [v| |]; cbn [obind]; [|reflexivity|reflexivity].
+    rewrite IH. destruct (omap (gv d fz) l); cbn [omap1 obind]; [|reflexivity|reflexivity].
+    now rewrite <- app_assoc.
+Qed.
+
+(* ------------------------------------------------------------------ internal/fcolumn: the built-in aggregations *)
+
+Section FloatArith.
+  Variables (fzero : N) (fadd fdiv : N -> N -> N) (fofint : Z -> N).
+
+  Lemma ga_fsum_loop_eq (l : list N) : forall r, ga_fcolumn_sum_loop1 fadd l r = Ok (fold_left fadd l r).
+  Proof. induction l as [|x l IH]; intro r; cbn [ga_fcolumn_sum_loop1 fold_left]; [reflexivity|apply IH]. Qed.
+  Lemma ga_favg_loop_eq (l : list N) : forall r, ga_fcolumn_avg_loop1 fadd l r = Ok (fold_left fadd l r).
+  Proof. induction l as [|x l IH]; intro r; cbn [ga_fcolumn_avg_loop1 fold_left]; [reflexivity|apply IH]. Qed.
+
+  (* sum: the left fold of + from 0 in slice order; avg: that sum divided by float64(len) — for ANY float
+     arithmetic *)
+  Definition f_sum_spec (v : list N) : N := fold_left fadd v fzero.
+  Definition f_avg_spec (v : list N) : N := fdiv (fold_left fadd v fzero) (fofint (Z.of_nat (length v))).
+
+  Lemma ga_fcolumn_sum_eq (v : list N) : ga_fcolumn_sum fzero fadd v = Ok (f_sum_spec v).
+  Proof. unfold ga_fcolumn_sum. now rewrite ga_fsum_loop_eq. Qed.
+  Lemma ga_fcolumn_avg_eq (v : list N) : ga_fcolumn_avg fzero fadd fdiv fofint v = Ok (f_avg_spec v).
+  Proof. unfold ga_fcolumn_avg. now rewrite ga_favg_loop_eq. Qed.
+End FloatArith.
+
+Lemma ga_fmax_loop_eq (fmx : N -> N -> N) (l : list N) : forall r, ga_fcolumn_max_loop1 fmx l r = Ok (fold_left fmx l r).
+Proof. induction l as [|x l IH]; intro r; cbn [ga_fcolumn_max_loop1 fold_left]; [reflexivity|apply IH]. Qed.
+Lemma ga_fmin_loop_eq (fmn : N -> N -> N) (l : list N) : forall r, ga_fcolumn_min_loop1 fmn l r = Ok (fold_left fmn l r).
+Proof. induction l as [|x l IH]; intro r; cbn [ga_fcolumn_min_loop1 fold_left]; [reflexivity|apply IH]. Qed.
+
+(* max / min with math.Max / math.Min read as the model reads them: fl_max / fl_min (panic on an empty slice) *)
+Lemma ga_fcolumn_max_eq (v : list N) : ga_fcolumn_max Aggregate.f_max v = fl_max v.
+Proof.
+  unfold ga_fcolumn_max, fl_max. destruct v as [|x r]; [reflexivity|].
+  cbn [ga_index Z.ltb Z.compare idx nth_error Z.to_nat of_option obind ga_tail1]. now rewrite ga_fmax_loop_eq.
+Qed.
+Lemma ga_fcolumn_min_eq (v : list N) : ga_fcolumn_min Aggregate.f_min v = fl_min v.
+Proof.
+  unfold ga_fcolumn_min, fl_min. destruct v as [|x r]; [reflexivity|].
+  cbn [ga_index Z.ltb Z.compare idx nth_error Z.to_nat of_option obind ga_tail1]. now rewrite ga_fmin_loop_eq.
+Qed.
+
+Notation cells_float := (cells_T CFloat cell_float).
+Notation cells_bool := (cells_T CBool cell_bool).
+
+(* the table var aggregations of fcolumn: which function a name is bound to *)
+Definition f_builtin (fzero : N) (fadd fdiv : N -> N -> N) (fofint : Z -> N) (gofn : bytes) : option (list N -> outcome N) :=
+  if bytes_eqb gofn gofn_max then Some (ga_fcolumn_max Aggregate.f_max)
+  else if bytes_eqb gofn gofn_min then Some (ga_fcolumn_min Aggregate.f_min)
+  else if bytes_eqb gofn gofn_sum then Some (ga_fcolumn_sum fzero fadd)
+  else if bytes_eqb gofn gofn_avg then Some (ga_fcolumn_avg fzero fadd fdiv fofint)
+  else None.
+
+Lemma ga_faggregations_eq (fzero : N) (fadd fdiv : N -> N -> N) (fofint : Z -> N) (n : bytes) :
+  ga_map_get (fun _ : list N => @Panic N)
+    (ga_fcolumn_aggregations fzero fadd fdiv Aggregate.f_max Aggregate.f_min fofint) n
+  = match assocb n t_f_aggregations with
+    | Some gofn => match f_builtin fzero fadd fdiv fofint gofn with
+                   | Some fz => (fz, true) | None => (fun _ => Panic, false) end
+    | None => (fun _ => Panic, false)
+    end.
+Proof.
+  unfold t_f_aggregations, ga_fcolumn_aggregations, ga_map_get. cbn [assocb ga_map_find fst snd].
+  destruct (bytes_eqb (bs 3 0x617667) n) eqn:Eavg.
+  { apply bytes_eqb_spec in Eavg. subst n. reflexivity. }
+  destruct (bytes_eqb (bs 3 0x6d6178) n) eqn:Emax.
+  { apply bytes_eqb_spec in Emax. subst n. reflexivity. }
+  destruct (bytes_eqb (bs 3 0x6d696e) n) eqn:Emin.
+  { apply bytes_eqb_spec in Emin. subst n. reflexivity. }
+  destruct (bytes_eqb (bs 3 0x73756d) n) eqn:Esum.
+  { apply bytes_eqb_spec in Esum. subst n. reflexivity. }
+  reflexivity.
+Qed.
+
+(* ------------------------------------------------------------------ internal/fcolumn: Column.Aggregate *)
+
+Definition m_fn_cases_float (fn : aggfn) : ga_fncase N :=
+  match fn with
+  | GName n => ga_FnString n
+  | GUser TFloat tbl => ga_FnFunc (cells_float (user_apply tbl))
+  | _ => ga_FnOther
+  end.
+
+Lemma col_of_cells_float cells : col_of_cells TFloat cells = (do d <- omap cell_float cells; Ok (FCol d)).
+Proof. reflexivity. Qed.
+Lemma col_of_cells_bool cells : col_of_cells TBool cells = (do d <- omap cell_bool cells; Ok (BCol d)).
+Proof. reflexivity. Qed.
+
+Lemma builtin_float_nofail ft gofn vals : builtin_apply ft TFloat gofn vals <> Fail.
+Proof.
+  unfold builtin_apply.
+  destruct (bytes_eqb gofn gofn_max).
+  { apply obind_nofail; [apply omap_not_fail; intros x _; apply cell_float_nofail|].
+    intro fs. unfold fl_max. destruct fs; discriminate. }
+  destruct (bytes_eqb gofn gofn_min).
+  { apply obind_nofail; [apply omap_not_fail; intros x _; apply cell_float_nofail|].
+    intro fs. unfold fl_min. destruct fs; discriminate. }
+  unfold float_oracle. destruct (find _ ft); discriminate.
+Qed.
+
+(* the premise for sum / avg: the oracle table of the model holds, for the values of every group, the result of
+   the float arithmetic the generated code is instantiated with *)
+Definition oracle_agrees (ft : float_table) (gofn : bytes) (spec : list N -> N) (d : list N) (gs : list (list nat)) : Prop :=
+  forall g vals, In g gs -> omap (idx d) g = Ok vals ->
+    float_oracle ft gofn (map CFloat vals) = Ok (CFloat (spec vals)).
+
+Lemma ga_fcolumn_Aggregate_eq (ft : float_table) (fzero : N) (fadd fdiv : N -> N -> N) (fofint : Z -> N)
+  (d : list N) (gs : list (list nat)) (fn : aggfn) :
+  (fn = GName gofn_sum -> oracle_agrees ft gofn_sum (f_sum_spec fzero fadd) d gs) ->
+  (fn = GName gofn_avg -> oracle_agrees ft gofn_avg (f_avg_spec fzero fadd fdiv fofint) d gs) ->
+  ga_fcolumn_Column_Aggregate m_new_error m_fn_cases_float FCol m_fnName fzero fadd fdiv Aggregate.f_max Aggregate.f_min
+    fofint m_fn_text (ga_mk_fcolumn_Column d) (map ints gs) fn
+  = m_col_Aggregate ft (FCol d) (map ints gs) fn.
+Proof.
+  intros Hsum Havg. rewrite m_col_Aggregate_ints. fold (agg_pair (col_aggregate ft (FCol d) gs fn)).
+  unfold ga_fcolumn_Column_Aggregate, col_aggregate, resolve_fn.
+  change (col_type (FCol d)) with TFloat. change (col_ftype (FCol d)) with TFloat.
+  change (agg_table_of TFloat) with t_f_aggregations.
+  pose proof (agg_core CFloat cell_float FCol TFloat cell_float_nofail agg_vals_FCol col_of_cells_float d) as Core.
+  destruct fn as [n|t tbl|]; cbn [m_fn_cases_float].
+  - rewrite ga_faggregations_eq.
+    destruct (assocb n t_f_aggregations) as [gofn|] eqn:En; [|reflexivity].
+    assert (Hn : n = gofn).
+    { revert En. unfold t_f_aggregations. cbn [assocb].
+      repeat match goal with |- context [bytes_eqb ?k n] => destruct (bytes_eqb k n) eqn:?E end;
+        intro H; inversion H; subst;
+        match goal with E : bytes_eqb _ n = true |- _ => apply bytes_eqb_spec in E; now rewrite <- E end. }
+    subst gofn. unfold f_builtin.
+    destruct (bytes_eqb n gofn_max) eqn:Emax.
+    { cbn [negb obind]. rewrite gap_make0 by lia. cbn [obind].
+      rewrite obind_pair_fst, ga_fcolumn_Aggregate_loop1_eq. cbn [ga_fcolumn_Column_data].
+      apply (Core _ (builtin_apply ft TFloat n) gs); [|apply builtin_float_nofail].
+      intros g vals _ _. unfold cells_T, builtin_apply. rewrite Emax, omap_cell_float_CFloat. cbn [obind].
+      rewrite ga_fcolumn_max_eq. destruct (fl_max vals); reflexivity. }
+    destruct (bytes_eqb n gofn_min) eqn:Emin.
+    { cbn [negb obind]. rewrite gap_make0 by lia. cbn [obind].
+      rewrite obind_pair_fst, ga_fcolumn_Aggregate_loop1_eq. cbn [ga_fcolumn_Column_data].
+      apply (Core _ (builtin_apply ft TFloat n) gs); [|apply builtin_float_nofail].
+      intros g vals _ _. unfold cells_T, builtin_apply. rewrite Emax, Emin, omap_cell_float_CFloat. cbn [obind].
+      rewrite ga_fcolumn_min_eq. destruct (fl_min vals); reflexivity. }
+    destruct (bytes_eqb n gofn_sum) eqn:Es.
+    { apply bytes_eqb_spec in Es. subst n. cbn [negb obind]. rewrite gap_make0 by lia. cbn [obind].
+      rewrite obind_pair_fst, ga_fcolumn_Aggregate_loop1_eq. cbn [ga_fcolumn_Column_data].
+      apply (Core _ (builtin_apply ft TFloat gofn_sum) gs); [|apply builtin_float_nofail].
+      intros g vals Hg Hv. unfold cells_T, builtin_apply. rewrite Emax, Emin.
+      rewrite (Hsum eq_refl g vals Hg Hv). cbn [obind cell_float]. apply ga_fcolumn_sum_eq. }
+    destruct (bytes_eqb n gofn_avg) eqn:Ea.
+    { apply bytes_eqb_spec in Ea. subst n. cbn [negb obind]. rewrite gap_make0 by lia. cbn [obind].
+      rewrite obind_pair_fst, ga_fcolumn_Aggregate_loop1_eq. cbn [ga_fcolumn_Column_data].
+      apply (Core _ (builtin_apply ft TFloat gofn_avg) gs); [|apply builtin_float_nofail].
+      intros g vals Hg Hv. unfold cells_T, builtin_apply. rewrite Emax, Emin.
+      rewrite (Havg eq_refl g vals Hg Hv). cbn [obind cell_float]. apply ga_fcolumn_avg_eq. }
+    exfalso. revert En. unfold t_f_aggregations. cbn [assocb].
+    repeat match goal with |- context [bytes_eqb ?k n] => destruct (bytes_eqb k n) eqn:?E end; try discriminate;
+      intros _; match goal with E : bytes_eqb _ n = true |- _ => apply bytes_eqb_spec in E; subst n end;
+      vm_compute in Emax, Emin, Es, Ea; congruence.
+  - destruct t; cbn [ctype_eqb andb negb obind agg_pair]; try reflexivity.
+    rewrite gap_make0 by lia. cbn [obind].
+    rewrite obind_pair_fst, ga_fcolumn_Aggregate_loop2_eq. cbn [ga_fcolumn_Column_data].
+    apply (Core _ (user_apply tbl) gs); [intros; reflexivity|apply user_apply_nofail].
+  - reflexivity.
+Qed.
+
+(* ------------------------------------------------------------------ internal/bcolumn: majority / Aggregate *)
+
+Lemma ga_majority_loop_eq (l : list bool) : forall t f,
+  ga_bcolumn_majority_loop1 l t f
+  = Ok (t + Z.of_nat (length (filter (fun x => x) l)), f + Z.of_nat (length (filter negb l))).
+Proof.
+  induction l as [|x l IH]; intros t f; cbn [ga_bcolumn_majority_loop1 filter length].
+  - now rewrite !Z.add_0_r.
+  - destruct x; cbn [obind negb length]; rewrite IH; f_equal; f_equal; lia.
+Qed.
+
+(* majority: tCount > fCount *)
+Lemma ga_bcolumn_majority_eq (v : list bool) : ga_bcolumn_majority v = Ok (b_majority v).
+Proof.
+  unfold ga_bcolumn_majority, b_majority. rewrite ga_majority_loop_eq. cbn [obind]. f_equal.
+  destruct (Nat.ltb_spec (length (filter negb v)) (length (filter (fun x => x) v))); lia.
+Qed.
+
+Definition m_fn_cases_bool (fn : aggfn) : ga_fncase bool :=
+  match fn with
+  | GName n => ga_FnString n
+  | GUser TBool tbl => ga_FnFunc (cells_bool (user_apply tbl))
+  | _ => ga_FnOther
+  end.
+
+Lemma builtin_bool_nofail ft gofn vals : builtin_apply ft TBool gofn vals <> Fail.
+Proof.
+  unfold builtin_apply. apply obind_nofail; [apply omap_not_fail; intros x _; apply cell_bool_nofail|].
+  intro bl. destruct (bytes_eqb gofn gofn_majority); discriminate.
+Qed.
+
+Lemma ga_bcolumn_Aggregate_eq (ft : float_table) (d : list bool) (gs : list (list nat)) (fn : aggfn) :
+  ga_bcolumn_Column_Aggregate m_new_error m_fn_cases_bool BCol m_fnName m_fn_text (ga_mk_bcolumn_Column d) (map ints gs) fn
+  = m_col_Aggregate ft (BCol d) (map ints gs) fn.
+Proof.
+  rewrite m_col_Aggregate_ints. fold (agg_pair (col_aggregate ft (BCol d) gs fn)).
+  unfold ga_bcolumn_Column_Aggregate, col_aggregate, resolve_fn.
+  change (col_type (BCol d)) with TBool. change (col_ftype (BCol d)) with TBool.
+  change (agg_table_of TBool) with t_b_aggregations.
+  pose proof (agg_core CBool cell_bool BCol TBool cell_bool_nofail agg_vals_BCol col_of_cells_bool d) as Core.
+  destruct fn as [n|t tbl|]; cbn [m_fn_cases_bool].
+  - unfold t_b_aggregations, ga_bcolumn_aggregations, ga_map_get. cbn [assocb ga_map_find fst snd].
+    destruct (bytes_eqb (bs 8 0x6d616a6f72697479) n) eqn:E; [|reflexivity].
+    apply bytes_eqb_spec in E. subst n. cbn [negb obind]. rewrite gap_make0 by lia. cbn [obind].
+    rewrite obind_pair_fst, ga_bcolumn_Aggregate_loop1_eq. cbn [ga_bcolumn_Column_data].
+    apply (Core _ (builtin_apply ft TBool (bs 8 0x6d616a6f72697479)) gs); [|apply builtin_bool_nofail].
+    intros g vals _ _. unfold cells_T, builtin_apply. rewrite omap_cell_bool_CBool. cbn [obind].
+    change (bytes_eqb (bs 8 0x6d616a6f72697479) gofn_majority) with true. cbn iota. cbn [obind cell_bool].
+    apply ga_bcolumn_majority_eq.
+  - destruct t; cbn [ctype_eqb andb negb obind agg_pair]; try reflexivity.
+    rewrite gap_make0 by lia. cbn [obind].
+    rewrite obind_pair_fst, ga_bcolumn_Aggregate_loop2_eq. cbn [ga_bcolumn_Column_data].
+    apply (Core _ (user_apply tbl) gs); [intros; reflexivity|apply user_apply_nofail].
+  - reflexivity.
+Qed.
+
+Lemma hash_input_total (nulleq : bool) (z : Z) (b : bool) (r : N) :
+  Grouper.hash_input nulleq (Grouper.CInt z) <> None /\ Grouper.hash_input nulleq (Grouper.CBool b) <> None
+  /\ Grouper.hash_input nulleq (Grouper.CEnum r) <> None.
+Proof. repeat split; discriminate. Qed.
